@@ -626,3 +626,69 @@ func genDecoBlock(r *rand.Rand) *History {
 	invoke(0, Param{K: H})
 	return h
 }
+
+// ---- big inputs (C05: resolution terminates, recursion stays linear) ------------------------------------------
+//
+// genBigShape draws one of: a chain of 200-1200 constructors (f_i needs the named value i-1 and provides the named
+// value i) registered in random order, a function with 60-150 parameters, a value group with 150-400 feeders, or a
+// binary tree of depth 8-9 - each followed by Invokes of the far end. Names supply the keys.
+func genBigShape(r *rand.Rand) *History {
+	h := &History{}
+	h.Opts.Defer = r.Intn(3) == 0
+	h.Opts.Recover = r.Intn(2) == 0
+	h.Opts.RandSeed = r.Int63n(1 << 30)
+	h.Opts.OptOrder = r.Int63n(1 << 30)
+	newFn := func(params []Param, results []Res) *Fn {
+		f := &Fn{ID: len(h.Fns), Params: params, Results: results}
+		h.Fns = append(h.Fns, f)
+		return f
+	}
+	key := func(i int) Key { return Key{T: i % 3, Name: fmt.Sprintf("k%d", i)} }
+	var regs []Op
+	var goals [][]Param
+	switch r.Intn(4) {
+	case 0:
+		n := 200 + r.Intn(1001)
+		for i := 0; i < n; i++ {
+			var ps []Param
+			if i > 0 {
+				ps = []Param{{K: key(i - 1)}}
+			}
+			regs = append(regs, Op{Kind: OpProvide, Fn: newFn(ps, []Res{{K: key(i)}}).ID})
+		}
+		goals = [][]Param{{{K: key(n - 1)}}, {{K: key(n / 2)}}}
+	case 1:
+		n := 60 + r.Intn(91)
+		var ps []Param
+		for i := 0; i < n; i++ {
+			regs = append(regs, Op{Kind: OpProvide, Fn: newFn(nil, []Res{{K: key(i)}}).ID})
+			ps = append(ps, Param{K: key(i)})
+		}
+		regs = append(regs, Op{Kind: OpProvide, Fn: newFn(ps, []Res{{K: Key{T: 3}}}).ID})
+		goals = [][]Param{{{K: Key{T: 3}}}}
+	case 2:
+		n := 150 + r.Intn(251)
+		G := Key{T: 0, Group: "g1"}
+		for i := 0; i < n; i++ {
+			regs = append(regs, Op{Kind: OpProvide, Fn: newFn(nil, []Res{{K: G}}).ID})
+		}
+		goals = [][]Param{{{K: G}}, {{K: G}}}
+	default:
+		d := 8 + r.Intn(2)
+		n := 1<<uint(d) - 1
+		for i := 0; i < n; i++ {
+			var ps []Param
+			if 2*i+2 < n {
+				ps = []Param{{K: key(2*i + 1)}, {K: key(2*i + 2)}}
+			}
+			regs = append(regs, Op{Kind: OpProvide, Fn: newFn(ps, []Res{{K: key(i)}}).ID})
+		}
+		goals = [][]Param{{{K: key(0)}}}
+	}
+	r.Shuffle(len(regs), func(i, j int) { regs[i], regs[j] = regs[j], regs[i] })
+	h.Ops = append(h.Ops, regs...)
+	for _, g := range goals {
+		h.Ops = append(h.Ops, Op{Kind: OpInvoke, Fn: newFn(g, nil).ID})
+	}
+	return h
+}
